@@ -6,7 +6,8 @@ Open Scope string_scope.
 Inductive expr :=
 | Param (p : string)            (* the very object passed for parameter p *)
 | Const (c : string)            (* a constant / an unforwarded default *)
-| Alias (old : string) (e : expr).  (* old if it is not the 'deprecated' sentinel, else e *)
+| Alias (old : string) (e : expr)   (* old if it is not the 'deprecated' sentinel, else e *)
+| Sentinel (old : string).         (* `old if old == 'deprecated' else 'deprecated'`: the sentinel, as the object given *)
 
 Record class_init := {
   cname : string;
@@ -35,6 +36,7 @@ Section Sem.
     | Param p => env p
     | Const c => constv c
     | Alias old e' => if is_sentinel (env old) then eval env e' else env old
+    | Sentinel old => if is_sentinel (env old) then env old else constv "'deprecated'"
     end.
 
   (* scikit-learn's BaseEstimator.get_params: getattr(self, name) for each signature name *)
@@ -54,6 +56,7 @@ Fixpoint stores_param (dep : list string) (p : string) (e : expr) : bool :=
   | Param q => String.eqb p q
   | Const _ => false
   | Alias old e' => mem old dep && stores_param dep p e'
+  | Sentinel _ => false
   end.
 
 Definition nondeprecated (c : class_init) : list string :=
@@ -65,7 +68,15 @@ Definition class_ok (c : class_init) : bool :=
                     | None => false end) (nondeprecated c)
   && forallb (fun p => match lookup p (cstores c) with
                        | Some (Const _) => true      (* keeps get_params working *)
+                       | Some (Sentinel q) => String.eqb p q
                        | _ => false end) (cdeprecated c).
+
+(* a deprecated parameter left at its default is stored as the very object passed (scikit-learn's clone compares
+   constructor parameters by identity, which matters after unpickling) *)
+Definition sentinel_kept (c : class_init) : bool :=
+  forallb (fun p => match lookup p (cstores c) with
+                    | Some (Sentinel q) => String.eqb p q
+                    | _ => false end) (cdeprecated c).
 
 (* documented deprecated aliases: old parameter -> its replacement *)
 Definition alias_ok (c : class_init) (old new : string) : bool :=
